@@ -1,6 +1,6 @@
 # Codec.tla <-> internal/protocol wire codecs   (C05)
 import os, json
-import vf
+import vf, _partlc
 
 ALL_TYPES = ["Frame", "PeerHello", "StreamOpen", "StreamOpenAck", "StreamOpenErr", "StreamReset", "Keepalive",
              "RouteAdvertise", "RouteWithdraw", "NodeInfoAdvertise", "ControlRequest", "ControlResponse",
@@ -36,8 +36,12 @@ def streams_of(res):
 def model(ctx):
     """Ideal grammar round-trips on every enumerated shape; every deviation is caught."""
     wide = not ctx.quick()
-    ideal = ctx.tlc("Codec", "MC.cfg", files={"MC.cfg": cfg(ALL_TYPES, wide=wide)}, name="codec-ideal",
-                    timeout=3000, heap="8g")
+    jobs = [{"name": "ideal", "cfg": cfg(ALL_TYPES, wide=wide), "workers": 4, "heap": "8g"}]
+    jobs += [{"name": d, "cfg": cfg(types, dev=[d], emit=False,
+                                    invs="RoundTrip AllocProportional StreamAgrees StreamAllocBounded")}
+             for d, (types, inv) in DEVS.items()]
+    res = _partlc.run(ctx, "Codec", jobs)
+    ideal = res["ideal"]
     if ideal.violated:
         raise vf.Infra("ideal Codec spec violates %s (specification error)" % ideal.violated)
     vecs, hostile = vecs_of(ideal)
@@ -49,12 +53,9 @@ def model(ctx):
         raise vf.Infra("ideal Codec spec: parse outcome %s on %s" % (bad[0]["parse"], bad[0]["ty"]))
     caught = {}
     for d, (types, inv) in DEVS.items():
-        r = ctx.tlc("Codec", "MCdev.cfg", expect_violation=True, name="codec-" + d,
-                    files={"MCdev.cfg": cfg(types, dev=[d], emit=False,
-                                             invs="RoundTrip AllocProportional StreamAgrees StreamAllocBounded")})
-        caught[d] = r.violated
-        if r.violated not in inv:
-            raise vf.Infra("deviation %s not detected by %s (got %s): vacuous model" % (d, inv, r.violated))
+        caught[d] = res[d].violated
+        if res[d].violated not in inv:
+            raise vf.Infra("deviation %s not detected by %s (got %s): vacuous model" % (d, inv, res[d].violated))
     return ideal, vecs, hostile, streams, caught
 
 
